@@ -94,4 +94,9 @@ def run(chk):
         fam.append((['U3'], core3))
     else:
         fam.append((['M2'], core[::4]))
+    # a network with an input variable, an uninterpreted and an explicit function under activation / inhibition constraints;
+    # a network whose transition structure is fully specified
+    core3i = [f for f in G.core_plain(['v0', 'v2']) if S.depth(f) <= 3 and S.quant_depth(f) <= 1]
+    fam.append((['I3'], core3i if thorough else core3i[::2]))
+    fam.append((['F2'], core if thorough else core[::3]))
     UC.run_family(chk, 'C01', fam, entries=entries)
